@@ -52,4 +52,17 @@ Proof.
   - rewrite andb_false_r. reflexivity.
 Qed.
 
+(* Matrix::new: `size` clones pushed one by one = repeat *)
+Lemma src_mat_new r c x : s_mat_new r c x = Ok (mat_new r c x).
+Proof.
+  unfold s_mat_new, mat_new, for_. rewrite Nat.sub_0_r.
+  assert (E : forall n lo (t : list (T A)), for_from n lo (fun _ t => Ok (t ++ [x])) t = Ok (t ++ repeat x n)).
+  { induction n as [|n IH]; intros lo t; cbn [for_from repeat bind]; [now rewrite app_nil_r|].
+    rewrite IH, <- app_assoc. reflexivity. }
+  rewrite E. reflexivity.
+Qed.
+Lemma src_numel m : s_numel m = Ok (cols m * rows m). Proof. reflexivity. Qed.
+Lemma src_mindex m i j : s_mindex m (i, j) = mget m i j. Proof. reflexivity. Qed.
+Lemma src_mclear m : s_mclear m = Ok mat_empty. Proof. reflexivity. Qed.
+
 End SrcEqMatrix.
